@@ -97,7 +97,7 @@ def run(ctx):
         if nb is None or absint.const_of(nb) is not True:
             bad.append("printed with a body")
         fl = [j for j, ev in enumerate(p.events) if j > i and ev[1] == "call" and ((ev[6] or "") == "std::io::Write::flush" or re.search(r"Write>::flush$", ev[2])) and RM.arg_mentions(p, ev, 0, RR.WRITER)]
-        if not fl:
+        if not fl and e[2] not in shared.flushing_printers(facts):
             bad.append("not flushed (the client would keep waiting for the 100)")
         v = p.state.read_key(FLAGKEY)
         if absint.const_of(v) is not False:
